@@ -247,6 +247,19 @@ def run_relayout(rng):
                 delta.pop("nodeSpacing")
             intended = dict(first)
             intended.update(delta)
+            if rng.random() < 0.4:
+                # the labels are re-measured / re-positioned between the two layouts (Timeline itself assigns node.width after
+                # construction; a caller that rescales its axis assigns idealPos): the second layout is for the NEW values
+                labels = list(labels)
+                for i in rng.sample(range(len(nodes)), max(1, len(nodes) // 2)):
+                    a, w = labels[i]
+                    if rng.random() < 0.8:
+                        w = rng.choice([x for x in (0.5, 1, 2, 3.5, 10, 25, 50.5) if x != w])
+                        nodes[i].width = _num(w)
+                    else:
+                        a = a + rng.choice([-3, 0.5, 7, 20])
+                        nodes[i].idealPos = _num(a)
+                    labels[i] = (a, w)
             if rng.random() < 0.5:
                 f.set_options(delta)
                 with guard.limit(900):
